@@ -23,6 +23,7 @@ import numpy as np
 from harness.common import rat, parse_rat, parse_rat_list, MachineryError
 
 TOL = 1e-9
+IR_BUDGET = 1600        # internal samples x sub-samples up to which the impulse-response branch is recomputed
 
 
 def _dy(rng, lo, hi, bits):
@@ -288,6 +289,10 @@ def model_requests(case, obs, rng):
     pix = sorted(set(pix))
     for ix, iy in pix:
         lines.append('C04 tf %d %d' % (ix, iy))
+    # impulse-response branch: the whole sampled impulse response (small internal grids only)
+    if obs['reg']['ir'] and case['z'] != 0 and M[0] * M[1] * case['s'] ** 2 <= IR_BUDGET:
+        for jy in range(M[1]):
+            lines.append('C04 ir %d' % jy)
     return lines, pix
 
 
@@ -296,6 +301,9 @@ def model_tf_value(case, kv):
         ts = parse_rat_list(kv['turns'])
         return sum(complex(math.cos(2 * math.pi * float(t)), math.sin(2 * math.pi * float(t))) for t in ts) / len(ts)
     rs = parse_rat_list(kv['rad'])
+    k2 = (Fraction(case['n']) / Fraction(case['lam'])) ** 2
+    if any(abs(r) < k2 / 10 ** 6 for r in rs):
+        return None         # sqrt is ill-conditioned at the evanescent boundary: float k^2 - k_perp^2 decides
     z = float(case['z'])
     evz = float(parse_rat(kv['evz']))
     acc = 0
@@ -307,6 +315,27 @@ def model_tf_value(case, kv):
         else:
             acc += math.exp(-2 * math.pi * evz * math.sqrt(float(-r)))
     return acc / len(rs)
+
+
+def model_ir_transfer_function(case, M, rows):
+    """D on the centred internal grid from the model's exact impulse-response data (see Model/NearField.lean)."""
+    s2 = case['s'] ** 2
+    H = np.zeros((M[1], M[0]), dtype=complex)
+    lam, z, n = float(case['lam']), float(case['z']), float(case['n'])
+    for jy, resp in enumerate(rows):
+        kv = _kv(resp)
+        if case['kind'] == 'fresnel':
+            amp = float(parse_rat(kv['amp']))
+            t = np.array([float(v) for v in parse_rat_list(kv['turns'])])
+            h = amp * np.exp(2j * np.pi * t)
+        else:
+            r2 = np.array([float(v) for v in parse_rat_list(kv['r2'])])
+            r = np.sqrt(r2)
+            k = 2 * np.pi * n / lam
+            h = (z / r) / (2 * np.pi) * np.exp(1j * k * r) * (1 / r2 - 1j * k / r)
+        H[jy, :] = h.reshape(M[0], s2).mean(axis=1)
+    w = float(case['delta'][0]) * float(case['delta'][1])
+    return np.fft.fftshift(np.fft.fft2(np.fft.ifftshift(H))) * w
 
 
 def compare_model(ctx, case, obs, pix, answers):
@@ -346,9 +375,13 @@ def compare_model(ctx, case, obs, pix, answers):
         raise MachineryError('FourierFilter has no cached transfer function after forward()')
     D = np.fft.fftshift(np.asarray(tf))          # centred layout (My, Mx)
     worst = 0.0
-    for (ix, iy), resp in zip(pix, answers[1:]):
+    ir_rows = answers[1 + len(pix):]
+    for (ix, iy), resp in zip(pix, answers[1:1 + len(pix)]):
         ctx.traces_validated += 1
         want = model_tf_value(case, _kv(resp))
+        if want is None:
+            ctx.count('skipped:pixel-on-evanescent-boundary')
+            continue
         worst = max(worst, abs(complex(D[iy, ix]) - want) / max(1.0, abs(want)))
     matches = worst <= TOL
     if obs['near_boundary']:
@@ -358,8 +391,17 @@ def compare_model(ctx, case, obs, pix, answers):
         evan_neg = case['kind'] == 'angular' and reg['minrad'] < 0 and case['z'] < 0
         ctx.disagree('C04 transfer function', {'case': case, 'max_rel_dev': worst, 'model_branch': 'tf'},
                      key='angular-evanescent-corner transfer-function' if evan_neg else None)
+    elif kv['branch'] == 'ir' and ir_rows:
+        want = model_ir_transfer_function(case, model_M, ir_rows)
+        dev = float(np.abs(D - want).max()) / max(1.0, float(np.abs(want).max()))
+        ctx.traces_validated += 1
+        ctx.count('ir-transfer-function-recomputed')
+        if not dev <= TOL:
+            ctx.disagree('C04 impulse-response transfer function', {'case': case, 'max_rel_dev': dev,
+                         'sampled_tf_matches_instead': bool(matches)})
     elif kv['branch'] == 'ir' and matches and case['z'] != 0:
-        ctx.disagree('C04 branch', {'case': case, 'detail': 'model takes the impulse-response branch, the code multiplies with the directly sampled transfer function'})
+        # (a discrete chirp can be its own transform, e.g. lambda |z| = M delta^2: recorded, not decided, on large grids)
+        ctx.count('ir-branch-coincides-with-sampled-tf(large grid, not recomputed)')
     ctx.count('branch:' + kv['branch'])
 
 
